@@ -379,7 +379,7 @@ Definition lc_validate (usize ucrc : N) (comp : bytes) (b chunk_rdr : rdr) (s : 
   match e with
   | Some e => (Some e, s)
   | None =>
-    let is_lz4 := bytes_eqb comp [x6c; x7a; x34] in
+    let is_lz4 := drains_chunk comp in
     let extra_bad := if is_lz4 then
                        match r_buf r1, r_end r1 with
                        | [], None => None
@@ -531,12 +531,12 @@ Proof.
   destruct e as [e|].
   { intros H; inversion H; subst; clear H.
     eapply allocs_ext_trans; [exact Ga|apply allocs_ext_eq; reflexivity]. }
-  set (sb := if bytes_eqb comp _ then set lx_chunk _ _ else _).
+  set (sb := if drains_chunk comp then set lx_chunk _ _ else _).
   assert (Ga2 : allocs_ext ubuf_alloc_ok s sb).
-  { subst sb. destruct (bytes_eqb comp _);
+  { subst sb. destruct (drains_chunk comp);
       (eapply allocs_ext_trans; [exact Ga|apply allocs_ext_eq; reflexivity]). }
   clearbody sb.
-  destruct (if bytes_eqb comp _ then _ else None) as [x|].
+  destruct (if drains_chunk comp then _ else None) as [x|].
   { intros H; inversion H; subst; exact Ga2. }
   destruct ((0 <? ucrc) && negb (crc32 data =? ucrc)).
   { intros H; inversion H; subst; exact Ga2. }
@@ -586,11 +586,11 @@ Proof.
   { intros H; inversion H; subst; clear H. unfold Lb, cl in *. rsimpl. split; lia. }
   apply rd_full_ok in Er. destruct Er as [Ed [Eb _]].
   assert (Hd : (length data <= length (r_buf cr))%nat) by (rewrite Eb, app_length; lia).
-  set (sb := if bytes_eqb comp _ then set lx_chunk _ _ else _).
+  set (sb := if drains_chunk comp then set lx_chunk _ _ else _).
   assert (Gsb : Lb sb = Lb s /\ (cl sb <= S (length (r_buf cr)))%nat).
-  { subst sb. destruct (bytes_eqb comp _); unfold Lb, cl in *; rsimpl; cbn [length]; split; lia. }
+  { subst sb. destruct (drains_chunk comp); unfold Lb, cl in *; rsimpl; cbn [length]; split; lia. }
   destruct Gsb as [Gl2 Gc2]. clearbody sb.
-  destruct (if bytes_eqb comp _ then _ else None) as [x|].
+  destruct (if drains_chunk comp then _ else None) as [x|].
   { intros H; inversion H; subst; clear H. split; lia. }
   destruct ((0 <? ucrc) && negb (crc32 data =? ucrc)).
   { intros H; inversion H; subst; clear H. split; lia. }
@@ -1115,12 +1115,12 @@ Proof.
   destruct x as [x|].
   { intros H; inversion H; subst; clear H. rsimpl. rewrite Gl. split; [reflexivity|].
     intros Hx; inversion Hx; subst. apply rd_full_eof in Er. exists r1. split; [reflexivity|apply Er]. }
-  set (sb := if bytes_eqb comp _ then set lx_chunk _ _ else _).
+  set (sb := if drains_chunk comp then set lx_chunk _ _ else _).
   assert (Gsb : lx_base sb = lx_base s /\
-                (bytes_eqb comp [x6c; x7a; x34] = true -> lx_chunk sb = Some {| r_buf := []; r_end := r_end r1; r_seek := false |})).
-  { subst sb. destruct (bytes_eqb comp _); rsimpl; rewrite Gl; split; auto; discriminate. }
+                (drains_chunk comp = true -> lx_chunk sb = Some {| r_buf := []; r_end := r_end r1; r_seek := false |})).
+  { subst sb. destruct (drains_chunk comp); rsimpl; rewrite Gl; split; auto; discriminate. }
   destruct Gsb as [Gl2 Gc2]. clearbody sb.
-  destruct (bytes_eqb comp [x6c; x7a; x34]) eqn:Elz.
+  destruct (drains_chunk comp) eqn:Elz.
   - destruct (match r_buf r1 with [] => _ | _ => _ end) as [x|] eqn:Ex.
     { intros H; inversion H; subst; clear H. split; [rewrite Gl2; reflexivity|].
       intros Hx; inversion Hx; subst. eexists. split; [apply Gc2; reflexivity|].
@@ -1803,7 +1803,7 @@ Proof.
   destruct x as [x|].
   { intros H1 H2; inversion H1; inversion H2; subst. right. split; [reflexivity|].
     apply srel_chunk; assumption. }
-  destruct (bytes_eqb comp [x6c; x7a; x34]) eqn:Elz.
+  destruct (drains_chunk comp) eqn:Elz.
   - destruct HC as [[_ <-]|HC].
     + (* identical chunk readers *)
       set (sbF := set lx_chunk _ (set lx_chunk _ saF)).
